@@ -81,6 +81,12 @@ def arith(op, a, b):
             return npvec.uf('sqrt', a)
         if isinstance(b, Fraction) and b.denominator == 1:
             return arith('**', a, int(b))
+        if isinstance(b, Fraction):
+            # real power with a fractional exponent: uninterpreted (congruence only); 1 ** y == 1
+            from . import npvec
+            if is_conc_num(a) and a == 1:
+                return Fraction(1)
+            return npvec.uf('pow', a, b)
         raise OutOfSubset('** with a symbolic exponent')
     raise OutOfSubset(f'operator {op}')
 
